@@ -46,6 +46,29 @@ def impl_full(c, asg):
     return c.evaluate_full_circuit(dict(asg))
 
 
+def mutate_everything(probe_target):
+    """in-place edits through public mutators that touch every list a circuit owns"""
+    from cirbo.core.circuit import gate as G
+    c = probe_target
+    labels = list(c._gates)
+    for i, l in enumerate(labels[:6]):
+        try:
+            c.rename_gate(l, l + '~r')
+        except Exception:  # noqa: BLE001
+            pass
+    try:
+        c.emplace_gate('~fresh_in', G.INPUT)
+        c.mark_as_output('~fresh_in')
+        c.order_outputs([])
+        c.order_inputs([])
+    except Exception:  # noqa: BLE001
+        pass
+    for b in list(c._blocks.values()):
+        b._inputs.append('~x')
+        b._gates.append('~x')
+        b._outputs.append('~x')
+
+
 # ------------------------------------------------------------------ C10
 def oracle_connect(case):
     """case: dict(base, other, tc, oc, right, name, add_prefix)"""
@@ -108,6 +131,24 @@ def oracle_connect(case):
         exp = [vb[o] for o in base['outputs'] if o not in tc] + [vo[o] for o in other['outputs'] if o not in oc]
         if got != exp:
             return f'outputs {got} instead of {exp} at {a}'
+    # no mutable state is shared with the attached circuit: later edits of either side stay local
+    snap_other = ct.dump_circuit(co)
+    snap_res = ct.dump_circuit(cb)
+    if True:
+        mutate_everything(probe_target=cb)
+        if ct.dump_circuit(co) != snap_other:
+            return 'editing the composed circuit afterwards changed the attached circuit (shared mutable state)'
+        cb = ct.build_circuit(snap_res)   # continue the remaining checks on an unedited equal state
+        cb2 = ct.build_circuit(base)
+        co2 = ct.build_circuit(other)
+        try:
+            cb2.connect_circuit(co2, list(tc), list(oc), right_connect=right, name=name, add_prefix=ap)
+            snap2 = ct.dump_circuit(cb2)
+            mutate_everything(probe_target=co2)
+            if ct.dump_circuit(cb2) != snap2:
+                return 'editing the attached circuit afterwards changed the composed circuit (shared mutable state)'
+        except Exception:  # noqa: BLE001
+            pass
     if name != '':
         # extracting the block gives back the attached circuit's function
         try:
